@@ -129,7 +129,7 @@ def main():
         except Exception:
             still = 'witness could not be re-executed: ' + traceback.format_exc()[-300:]
         if still:
-            known_lines.append('KNOWN-FINDING: property=%s %s' % (pid, f['what']))
+            known_lines.append('KNOWN-FINDING: property=%s %s' % (pid, ' '.join(f['what'].replace('\n', '\\n').split())))
         else:
             ctx.note('known finding %s no longer reproduces' % f.get('id'))
     new_fail = [f for f in ctx.failures if not findings.covered(pid, f.get('sig'))]
